@@ -378,7 +378,9 @@ def check_c11(run: Run, prog: Program) -> None:
         "P + x_i Q of one line - in the plane, in the plane seen from a fifth point, in 3-space - the returned quotient of determinants, read as polynomials in P, Q and "
         "the parameters, equals (x1 - x3)(x2 - x4) / ((x1 - x4)(x2 - x3)) after cross-multiplication, so the symmetries of C11 follow from the closed form. The pencil of lines of the plane likewise, "
         "for a finite vertex (slopes x_i) and a vertex at infinity (parallel lines with offsets x_i); the denominator vanishes on no coordinate hyperplane of the "
-        "configuration; the same object as the first two arguments gives 1. NOT decided: the pencil of planes (basis_matrix), projective invariance as such, harmonic_set."
+        "configuration; the same object as the first two arguments gives 1. (E19.harm) harmonic_set(a, b, alpha a + beta b) in the plane, interpreted through its "
+        "complete-quadrilateral construction with a free symbolic auxiliary point, returns a multiple of alpha a - beta b. NOT decided: the pencil of planes (basis_matrix), "
+        "projective invariance as such, harmonic_set in 3-space (basis_matrix)."
     )
     fn = prog.func("crossratio")
     quad = [p.arg for p in fn.params()[:4]]
@@ -395,6 +397,9 @@ def check_c11(run: Run, prog: Program) -> None:
 
     ncr = quadforms.rule_crossratio(run, prog)
     run.floor("closed-form cases of the cross ratio read", ncr, 3)
+    # harmonic_set: the fourth harmonic point of the plane, for every choice of the auxiliary point
+    nh = quadforms.rule_metric_constructions(run, prog, part="harmonic")
+    run.floor("harmonic-set constructions read (found, decided or not)", nh, 1)
 
 
 # ================================================================================================ C07
